@@ -31,7 +31,7 @@
   Every Rust operation that can panic is an explicit `.panic` branch:
     (P1 `assert_ne!(headers.coe_header.service, CoeService::Emergency)` was removed by fix-c16-emergency: the service is
         now looked at on the 8-byte mailbox + CoE header before the SDO header is decoded)
-    P2  `headers.header.length - 3` on u16                                          (sdo_read, segmented; checked builds)
+    (P2 `headers.header.length - 3` on u16 was repaired by fix-c16-segment-length: `checked_sub` -> Error::Internal)
     P3  `headers.mailbox.length as usize - COE_HEADER_AND_LIST_TYPE_SIZE`           (send_sdo_info_service; checked builds)
     P4  `response[..length]`                                                        (send_sdo_info_service; all builds)
   All other slice accesses in this code are `get(..).ok_or(..)` and are modelled as the error they return.
@@ -96,13 +96,6 @@ def Res.bind {α β : Type} (x : Res α) (f : α → Res β) : Res β :=
 def Res.map {α β : Type} (f : α → β) (x : Res α) : Res β := x.bind fun a => .ok (f a)
 
 /-! ### Integer operations that depend on the build profile -/
-
-/-- u16 `a - b`. -/
-def subU16 (m : Mode) (a b : Nat) : Res Nat :=
-  if b ≤ a then .ok (a - b)
-  else match m with
-    | .checked => .panic "attempt to subtract with overflow"
-    | .wrapping => .ok (a + 65536 - b)
 
 /-- usize (64 bit) `a - b`. -/
 def subUsize (m : Mode) (a b : Nat) : Res Nat :=
@@ -442,11 +435,10 @@ def segLoop {σ : Type} (w : World σ) (cfg : Cfg) :
     | (.err e, s) => (.err e, s)
     | (.panic why, s) => (.panic why, s)
     | (.ok (h, data), s) =>
-      -- P2: `usize::from(headers.header.length - 3)`
-      match subU16 cfg.mode h.header.length SEGMENT_HEADER_LEN with
-      | .panic why => (.panic why, s)
-      | .err e => (.err e, s)
-      | .ok chunk0 =>
+      -- `usize::from(headers.header.length.checked_sub(3).ok_or(Error::Internal)?)` (fix-c16-segment-length)
+      if h.header.length < SEGMENT_HEADER_LEN then (.err .internal, s)
+      else
+        let chunk0 := h.header.length - SEGMENT_HEADER_LEN
         let chunk := if chunk0 == SEGMENT_MIN_DATA then chunk0 - h.segDataSize else chunk0
         if chunk > data.length then (.err .internal, s)
         else if total + chunk > buf.length then (.err .internal, s)
